@@ -188,6 +188,10 @@ pub enum Dep {
 pub enum Step {
     Op(String, String),
     NoRec(Vec<Step>),
+    /// `no_record` called through the AnyCache view of ANOTHER cache, one without a reloader (the
+    /// recording that is suspended belongs to the load in progress on this thread, not to that cache);
+    /// the inner steps go through the loading cache
+    XNoRec(Vec<Step>),
     Thread(Vec<Step>),
     Other(Vec<Step>),
     /// catch_unwind around the inner steps (which may panic); always through the current cache
@@ -201,6 +205,7 @@ pub fn parse_script(s: &str) -> Vec<Step> {
             match t {
                 "}" => break,
                 "norec{" => out.push(Step::NoRec(block(it))),
+                "xnorec{" => out.push(Step::XNoRec(block(it))),
                 "thread{" => out.push(Step::Thread(block(it))),
                 "other{" => out.push(Step::Other(block(it))),
                 "try{" => out.push(Step::Try(block(it))),
@@ -216,6 +221,10 @@ pub fn parse_script(s: &str) -> Vec<Step> {
     block(&mut s.split_whitespace().peekable())
 }
 
+thread_local! {
+    /// a cache without a reloader, used only to call `no_record` through its AnyCache view
+    static NOHOT: AssetCache<Mem> = AssetCache::without_hot_reloading(Mem::new(false));
+}
 /// pointers to the typed caches for helper-thread / other-cache steps (AnyCache is !Send)
 pub static CTX: Mutex<(usize, usize)> = Mutex::new((0, 0));
 
@@ -231,6 +240,14 @@ fn exec(cache: AnyCache, steps: &[Step], out: &mut String) -> Result<(), BoxedEr
                 "L" => {
                     let h = cache.load::<L>(x)?;
                     write!(out, " L:{x}={}", h.read().v).unwrap();
+                }
+                "G" => {
+                    // the same load through the typed cache itself (a global `&'static AssetCache`, as
+                    // programs keep one), on the loading thread: recorded like any other load
+                    let ptr = CTX.lock().unwrap().0;
+                    let c = unsafe { &*(ptr as *const AssetCache<Mem>) };
+                    let h = c.load::<L>(x)?;
+                    write!(out, " G:{x}={}", h.read().v).unwrap();
                 }
                 "l" => match cache.load::<L>(x) {
                     Ok(h) => write!(out, " l:{x}={}", h.read().v).unwrap(),
@@ -320,6 +337,12 @@ fn exec(cache: AnyCache, steps: &[Step], out: &mut String) -> Result<(), BoxedEr
             Step::NoRec(b) => {
                 out.push_str(" norec{");
                 cache.no_record(|| exec(cache, b, out))?;
+                out.push_str(" }");
+            }
+            Step::XNoRec(b) => {
+                out.push_str(" xnorec{");
+                let nh = NOHOT.with(|c| c.as_any_cache().no_record(|| exec(cache, b, out)));
+                nh?;
                 out.push_str(" }");
             }
             Step::Thread(b) => {
@@ -635,6 +658,10 @@ impl Eval {
                         let val = self.nested(v, Ty::L, x, rec, other, deps)?;
                         write!(out, " L:{x}={val}").unwrap();
                     }
+                    "G" => {
+                        let val = self.nested(v, Ty::L, x, rec, false, deps)?;
+                        write!(out, " G:{x}={val}").unwrap();
+                    }
                     "l" => match self.nested(v, Ty::L, x, rec, other, deps) {
                         Ok(val) => write!(out, " l:{x}={val}").unwrap(),
                         Err(EvErr::Panic) => return Err(EvErr::Panic),
@@ -739,6 +766,11 @@ impl Eval {
                     self.steps(v, b, false, other, deps, out)?;
                     out.push_str(" }");
                 }
+                Step::XNoRec(b) => {
+                    out.push_str(" xnorec{");
+                    self.steps(v, b, false, other, deps, out)?;
+                    out.push_str(" }");
+                }
                 Step::Thread(b) => {
                     let mut s = String::new();
                     // another thread: nothing is recorded for the loading asset; always the main cache
@@ -833,6 +865,8 @@ pub struct World {
     pub armed_entry: Option<String>,
     pub present: BTreeSet<Key>,
     pub pending_maybe: BTreeSet<Dep>,
+    /// keys that have been present in the cache at some point of this history
+    pub ever_cached: BTreeSet<Key>,
     pub pending: BTreeSet<Dep>,
     /// entries whose value must never change: key -> value text (get_or_insert, non-reloadable, no reloader)
     pub pinned: BTreeMap<Key, String>,
@@ -968,6 +1002,7 @@ impl World {
             armed_entry: None,
             present: BTreeSet::new(),
             pending_maybe: BTreeSet::new(),
+            ever_cached: BTreeSet::new(),
             pending: BTreeSet::new(),
             pinned: BTreeMap::new(),
             viol: vec![],
@@ -1107,10 +1142,17 @@ impl World {
                 s.insert(k.clone());
             }
         }
+        // "…or an asset it obtained … is itself reloaded": a dependency through asset X is binding when X
+        // is cached as a reloadable entry (it will itself be reloaded), or when X was never in the cache
+        // (obtained with load_owned: its reads are effectively the dependent's).  When X was cached
+        // and has since been removed / taken / cleared, or sits in the cache as a static
+        // (get_or_insert) entry, X cannot be "itself reloaded": following its files is allowed
+        // (today's implementation does), not required.
+        let binding = |x: &Key| -> bool { may || !self.ever_cached.contains(x) || (self.peek(x).is_some() && !self.pinned.contains_key(x)) };
         loop {
             let mut add = vec![];
             for (k, deps) in &self.graph {
-                if !s.contains(k) && all(k, deps).iter().any(|d| matches!(d, Dep::Asset(t, i) if s.contains(&(*t, i.clone())))) {
+                if !s.contains(k) && all(k, deps).iter().any(|d| matches!(d, Dep::Asset(t, i) if s.contains(&(*t, i.clone())) && binding(&(*t, i.clone())))) {
                     add.push(k.clone());
                 }
             }
@@ -1191,7 +1233,10 @@ impl World {
                         if self.cfg.check_c05 && mask_unrecorded(&a.0) != mask_unrecorded(&val) {
                             stale.push((k.clone(), deps.clone(), format!("{k:?} was affected; reloading it from the current source and cache gives {val:?} but the cache holds {:?} (before the pass: {:?})", a.0, b.0)));
                         }
-                        if self.cfg.check_c06 && a.1 != b.1 + 1 {
+                        // an affected asset whose fresh value equals what it already holds need not be
+                        // rewritten (C05 asks for the value, C06 counts rewrites that happened)
+                        let no_rewrite_needed = a.1 == b.1 && a.0 == b.0 && mask_unrecorded(&val) == mask_unrecorded(&b.0);
+                        if self.cfg.check_c06 && a.1 != b.1 + 1 && !no_rewrite_needed {
                             self.violation(format!("c06:id-not-plus-one:{:?}", k.0), format!("{k:?} was affected and its reload succeeds, reload id went {} -> {}", b.1, a.1));
                         }
                         // possible extra dependencies through non-reloadable entries created in this pass
@@ -1670,6 +1715,11 @@ impl World {
             _ => panic!("bad op {op}"),
         }
         let _ = &mut owned_alive;
+        for k in self.universe() {
+            if !self.ever_cached.contains(&k) && self.peek(&k).is_some() {
+                self.ever_cached.insert(k);
+            }
+        }
         if self.cfg.check_presence {
             for k in self.universe() {
                 let real = self.peek(&k).is_some();
